@@ -260,8 +260,29 @@ func c28LinFlushable(c *ev.Ctx, r *rand.Rand, caseN int, lazy bool) {
 		rr := rand.New(rand.NewSource(seeds[cl]))
 		for k := 0; k < 5+rr.Intn(5); k++ {
 			key := rr.Intn(2)
-			hist.Jitter(rr.Intn(1000))
-			switch rr.Intn(10) {
+			op := rr.Intn(10)
+			if caseN%4 >= 2 {
+				// snapshot mix: tight loops of put / flush / read-through-a-fresh-snapshot
+				op = []int{0, 7, 10, 10, 1, 7, 10, 3, 10, 7}[op]
+			} else {
+				hist.Jitter(rr.Intn(1000))
+			}
+			switch op {
+			case 10:
+				rec.Do(cl, c28in{Op: "get", K: key}, func() interface{} {
+					sn, err := fl.GetSnapshot()
+					if err != nil {
+						return -1
+					}
+					defer sn.Release()
+					b, _ := sn.Get(keys[key])
+					if b == nil {
+						return 0
+					}
+					var v int
+					fmt.Sscan(string(b), &v)
+					return v
+				})
 			case 0, 1, 2:
 				v := (cl+1)*1000 + k + 1
 				rec.Do(cl, c28in{Op: "put", K: key, V: v}, func() interface{} { _ = fl.Put(keys[key], []byte(fmt.Sprint(v))); return 0 })
@@ -685,7 +706,13 @@ func c28LinBuffer(c *ev.Ctx, r *rand.Rand, caseN int) {
 					return 0
 				})
 			case 6:
-				rec.Do(cl, c28in{Op: "total"}, func() interface{} { return int(buf.Total().Num) })
+				rec.Do(cl, c28in{Op: "total"}, func() interface{} {
+					t := buf.Total()
+					if !c28validTotal(evs, t) {
+						c.Violation("ordering-buffer-total-is-a-pair-the-buffer-never-held", map[string]interface{}{"case": caseN, "total": t.String(), "event_sizes": []int{evs[0].Size(), evs[1].Size(), evs[2].Size(), evs[3].Size()}})
+					}
+					return int(t.Num)
+				})
 			default:
 				rec.Do(cl, c28in{Op: "clear"}, func() interface{} { buf.Clear(); return 0 })
 			}
@@ -808,4 +835,21 @@ func c28BufferDirected(c *ev.Ctx) {
 	model := c28bufModel()
 	c.Count("directed_buffer_histories", 1)
 	c28check(c, "ordering_buffer", model, rec.Ops(), -1, c28bufDiagnose(model))
+}
+
+// c28validTotal: (Num, Size) must be the count and byte size of SOME subset of the four events.
+func c28validTotal(evs []*cons.Ev, t dag.Metric) bool {
+	for mask := 0; mask < 16; mask++ {
+		n, sz := 0, 0
+		for k := 0; k < 4; k++ {
+			if mask&(1<<uint(k)) != 0 {
+				n++
+				sz += evs[k].Size()
+			}
+		}
+		if uint64(sz) == t.Size && idx.Event(n) == t.Num {
+			return true
+		}
+	}
+	return false
 }
